@@ -1299,13 +1299,15 @@ func (r *run) c12(g *gen.G, budget int) {
 	in := make(chan cemi.Message)
 	out := make(chan knx.GroupEvent, 1)
 	go knx.VerifServeGroupInbound(in, out)
-	sentinel := &cemi.LDataInd{LData: knx.VerifBuildGroupOutbound(knx.GroupEvent{Command: knx.GroupWrite, Destination: 0xffff, Data: []byte{0x3f}})}
+	// a marker no generated message can be mistaken for (14 fixed payload bytes)
+	sentinelData := []byte("\x3fverif-sentinel")
+	sentinel := &cemi.LDataInd{LData: knx.VerifBuildGroupOutbound(knx.GroupEvent{Command: knx.GroupWrite, Destination: 0xffff, Data: sentinelData})}
 	// filterOne pushes one message through the real serveGroupInbound
 	filterOne := func(m cemi.Message) (knx.GroupEvent, bool) {
 		in <- m
 		in <- sentinel
 		ev := <-out
-		if ev.Destination == 0xffff && len(ev.Data) == 1 && ev.Data[0] == 0x3f && ev.Source == 0 {
+		if ev.Destination == 0xffff && bytes.Equal(ev.Data, sentinelData) && ev.Source == 0 {
 			return knx.GroupEvent{}, false
 		}
 		<-out // the sentinel
